@@ -81,8 +81,11 @@ def make_packages(rng, n):
         order = struct("Order", [fld("Total", ["//govalid:gt=0"], f64), fld("Name", ["//govalid:required", "//govalid:alpha"], s)], [],
                        gendoc=["//govalid:required"] if k % 4 == 1 else [])
         own = struct("Own%d" % k, [fld("Name", ["//govalid:email"], s), fld("Age", ["//govalid:lt=%d" % (k + 10)], i64)], [], file="y")
-        structs = [user, order, own]
-        pk.append(scenario("pk%d" % k, structs))
+        from synth import named
+        aux, level = named("Level", [i64, s, f64, SLICE][k % 4])
+        cfg = struct("Config", [fld("Level", ["//govalid:required"], level), fld("Name", ["//govalid:required"], s)], [])   # same file as the type Level: the single-file form sees only that file
+        structs = [user, order, own, cfg]
+        pk.append(scenario("pk%d" % k, structs, aux=[aux]))
     # two byte-identical packages
     pk.append(scenario("twin_a", [struct("User", [fld("Age", ["//govalid:gt=3"], i64), fld("Name", ["//govalid:required"], s)], [])]))
     pk.append(scenario("twin_b", [struct("User", [fld("Age", ["//govalid:gt=3"], i64), fld("Name", ["//govalid:required"], s)], [])]))
